@@ -1,11 +1,13 @@
-#!/bin/sh
-# usage: tools/try_revert.sh "<commit subject grep>" <ID> [seed]   -- reverts a fix commit in the working tree, runs the quick check, restores
-set -e
+#!/bin/bash
+# usage: tools/try_revert.sh "<commit subject grep>" <ID> [seed] [tier]
+# Reverts one fix commit in an isolated scratch copy (never in /repo) and runs the check there.
 C=$(git -C /repo log --format='%h %s' | grep -- "$1" | head -1 | cut -d' ' -f1)
 [ -n "$C" ] || { echo "no commit matching $1"; exit 2; }
-git -C /repo diff --quiet || { echo "/repo has uncommitted changes"; exit 2; }
-git -C /repo show $C | git -C /repo apply -R
-set +e
-cd /verif && VERIF_SEED=${3:-1} ./check $2 | grep -v "^  check" | cut -c1-300 | head -8
+D=/tmp/tryrevert.$$
+/verif/tools/scratch_copy.sh $D > /dev/null || exit 2
+trap "git -C /repo worktree remove --force $D/repo; rm -rf $D" EXIT
+git -C /repo show $C > $D/fix.diff
+git -C $D/repo apply -R $D/fix.diff || { echo "cannot revert $C cleanly"; exit 2; }
+cd $D/verif && VERIF_SEED=${3:-1} ./check $2 --tier ${4:-quick} > $D/out.txt 2>&1
 echo "exit=$?"
-git -C /repo checkout -- . 
+grep -v "^  check" $D/out.txt | cut -c1-300 | head -8
